@@ -85,6 +85,8 @@ def near_miss_strings(rng, valid_s, n_flip=24):
     out = []
     for v in (0, 1, 2, 8, Q - 1, Q, Q + 1, Q - 2, (Q - 1) // 2, (Q + 1) // 2, 2**253, 2**253 - 1, 2**254, 2**255, 2**256 - 1, 2**252, 2 * Q, 2 * Q + 8):
         if v < 2**256: out.append(v)
+    # strings whose decoding feeds the square root an argument with a structured 2-Sylow component (table windows, generator, roots of unity)
+    out += gen.special_decode_strings(rng, 70)
     for s in valid_s[:10]:
         out.append(s)
         if s + Q < 2**256: out.append(s + Q)
